@@ -139,3 +139,13 @@ def exc_sig(e, root=None):
             where = '%s.%s' % (mod, tb.tb_frame.f_code.co_name)
         tb = tb.tb_next
     return '%s@%s' % (type(e).__name__, where)
+
+
+def mview(x):
+    """memoryview(x) for real and symbolic byte strings"""
+    return core.s_memoryview(x)
+
+
+def tobytes(x):
+    """bytes(x) for real and symbolic byte strings"""
+    return core.s_bytes(x)
